@@ -129,6 +129,7 @@ ConvFree(T, cx) ==
        [] T[1] = "list" -> "list" \in cx.nocopy /\ ConvFree(T[2], ElemCx(cx))
        [] T[1] = "dict" -> "dict" \in cx.nocopy /\ ConvFree(T[2], ElemCx(cx)) /\ ConvFree(T[3], ElemCx(cx))
        [] T[1] = "set"  -> "set" \in cx.nocopy /\ ConvFree(T[2], ElemCx(cx))
+       [] T[1] = "union" -> \A i \in DOMAIN T[2] : ConvFree(T[2][i], cx)        \* every member is passed through: so is the position
        [] OTHER -> FALSE
 
 RECURSIVE Pack(_, _, _)
